@@ -42,7 +42,8 @@ COMMIT_END = ('Finish', 'FinishThenFail', 'FailBegun', 'StoreRaises', 'StoreConf
 FAILURES = ('FailBeforeBegin', 'FailBegun', 'StoreRaises', 'StoreConflict', 'CommitSpConflict', 'FailStored', 'FailVoted',
             'FinishThenFail')
 # which deviation of the code makes a clause of `mon` possible (the design, all four cleared, satisfies every clause)
-CLAUSE_DEVIATION = {'state-lost': 'InvalidateDoomed', 'owned-uncommitted': 'LeakUnstored'}
+CLAUSE_DEVIATION = {'state-lost': 'InvalidateDoomed', 'owned-uncommitted': 'LeakUnstored',
+                    'rollback-owner': 'AliasCreating', 'rollback-value': 'SpBlobByName'}
 
 
 class Injected(Exception):
